@@ -77,6 +77,7 @@ def exprs():
     E.append(("a in (1, 2)", "bool", lambda r: None if r["a"] is None else r["a"] in (1, 2)))
     E.append(("a between 0 and 2", "bool", lambda r: None if r["a"] is None else 0 <= r["a"] <= 2))
     E.append(("a not in (1, 7)", "bool", lambda r: None if r["a"] is None else r["a"] not in (1, 7)))
+    E.append(("p", "bool", lambda r: r["p"]))          # a bare boolean column as the whole condition
     E.append(("p and q", "bool", lambda r: and3(r["p"], r["q"])))
     E.append(("p or q", "bool", lambda r: or3(r["p"], r["q"])))
     E.append(("not p", "bool", lambda r: not3(r["p"])))
